@@ -30,7 +30,7 @@ GNext ==
 
 GSpec == GInit /\ [][GNext]_gvars
 
-SlotsOut == [i \in 1 .. st.c |-> <<IF st.t[i - 1].occ THEN 1 ELSE 0, st.t[i - 1].hash, st.t[i - 1].psl, st.t[i - 1].id>>]
+SlotsOut == [i \in 1 .. st.c |-> <<IF st.t[i - 1].occ THEN 1 ELSE 0, st.t[i - 1].hash, st.t[i - 1].psl, st.t[i - 1].id, 0>>]
 Emit == (Len(hist) = Depth) =>
           PrintT(ToJson([cap |-> cap0, byhash |-> ByHash, ops |-> hist, slots |-> SlotsOut]))
 =============================================================================
